@@ -617,7 +617,8 @@ def rulePODDate(ts: datetime, pod: Time, d: Time) -> Time:
 
 
 @rule(
-    r"((?P<not>not |nicht )?(vor(?!mittag)|before))|(bis )?spätestens( bis)?|bis|latest",
+    r"((?P<not>not |nicht )?(vor(?!mittag)|before))|(bis )?spätestens( bis)?|bis|latest|"
+    r"\b(until|till?)\b",
     dimension(Time),
 )
 def ruleBeforeTime(ts: datetime, r: RegexMatch, t: Time) -> Interval:
